@@ -55,15 +55,35 @@ theorem C20_structural (σ : Subst) (x g : Nat) (a : Term) :
     (Term.comp g a).vars = a.vars ∧
     anyvars (.comp g a) = anyvars a := ⟨rfl, rfl, rfl, rfl⟩
 
-/-- labelling: `force_ans` on a compound labels its fields, like the elements of a list (D15) -/
+/-- labelling: `force_ans` on a compound labels its TERM fields, like the elements of a list (D15); a field that
+    is not a term — an `Option` object — contributes its children instead
+    (`compound_fields`) -/
 theorem C20_force (ord : Order) (n g : Nat) (a : Term) (st : State) (hp : st.panic = none)
     :
     ∃ fs fg, forceAns ord (n + 1) (.comp g a) = .dyn fs fg ∧
-      fg st = Goal.conjOfList (a.iterItems.map (forceAns ord n)) := by
+      fg st = Goal.conjOfList ((compFields a).map (forceAns ord n)) := by
   refine ⟨_, _, rfl, ?_⟩
   simp only [hp, Option.isSome_none, Bool.false_eq_true, if_false, walk]
 
+/-- without `Option` fields the labelled fields are exactly the children -/
+theorem C20_force_fields (a : Term) (h : ∀ item ∈ a.iterItems, ∀ k, item ≠ .comp 4 k) :
+    compFields a = a.iterItems := by
+  unfold compFields
+  generalize a.iterItems = l at h
+  induction l with
+  | nil => rfl
+  | cons x xs ih =>
+    simp only [List.flatMap_cons]
+    rw [ih fun item hi => h item (List.mem_cons_of_mem _ hi)]
+    have hx := h x (List.mem_cons_self ..)
+    split
+    · rename_i k; exact absurd rfl (hx k)
+    · rfl
+
 section Examples
+/-- `Slot(Some(p), t)` is labelled through `p, t`; `Slot(None, t)` through `t` -/
+example : compFields (.cons (.comp 4 (.cons (.var 0) .nil)) (.cons (.var 3) .nil)) = [.var 0, .var 3] := by decide
+example : compFields (.cons (.comp 4 .nil) (.cons (.var 3) .nil)) = [.var 3] := by decide
 private def pair (a b : Term) : Term := .comp 0 (.cons a (.cons b .nil))
 private def named (a b : Term) : Term := .comp 2 (.cons a (.cons b .nil))
 example : (match unifyF 20 Subst.id [] (pair (.var 0) (num 2)) (pair (num 1) (.var 1)) with
